@@ -38,13 +38,18 @@ theorem cast_clamp (mn mx x : Rat) : ((clamp mn mx x : Rat) : K) = clampK (mn : 
 theorem rmin_le_rmax (a b : Rat) : rmin a b ≤ rmax a b := by
   unfold rmin rmax; split_ifs <;> linarith
 
-/-- with start and end on the same side of the line (sum of the offsets non-zero) the code takes the
-    reflection point, clamped -/
-theorem sideX_same_side (a b c d mn mx : Rat) (h : b + d ≠ 0) :
-    sideX a b c d mn mx = some (clamp mn mx ((b * c + a * d) / (b + d))) := by
+theorem absR_eq_abs (r : Rat) : AdaptaVerif.Model.Geometry.absR r = |r| := by
+  unfold AdaptaVerif.Model.Geometry.absR
+  split_ifs with h
+  · exact (abs_of_neg h).symm
+  · exact (abs_of_nonneg (not_lt.mp h)).symm
+
+/-- unless start and end both lie on the side's line, the code takes the reflection / crossing point, clamped -/
+theorem sideX_off_line (a b c d mn mx : Rat) (h : |b| + |d| ≠ 0) :
+    sideX a b c d mn mx = some (clamp mn mx ((|b| * c + a * |d|) / (|b| + |d|))) := by
   unfold sideX
-  simp only [h, if_false]
-  have : ¬ (b = 0 ∧ d = 0) := by rintro ⟨rfl, rfl⟩; exact h (by norm_num)
+  simp only [absR_eq_abs]
+  have : ¬ (|b| = 0 ∧ |d| = 0) := by rintro ⟨h1, h2⟩; exact h (by rw [h1, h2]; norm_num)
   simp only [this, if_false]
 
 /-- |s − (X, offy)| + |(X, offy) − t| as a `detour` -/
@@ -102,6 +107,18 @@ theorem detour_abs (N : K → K → K) (hN : IsNorm N) (a b c d x : K) :
   have h2 : N (x - c) |d| = N (x - c) d := by
     rcases abs_choice d with h | h <;> rw [h]; exact hN.reflY _ _
   rw [h1, h2]
+
+/-- core of the repaired estimate: with the offsets in absolute value the clamped point minimises the detour over
+    [mn, mx] for all positions of start and end (not both on the line) -/
+theorem detour_model_min_abs (N : K → K → K) (hN : IsNorm N) (a b c d mn mx : Rat) (hbd : 0 < |b| + |d|)
+    (hmm : mn ≤ mx) (x : Rat) (hx0 : mn ≤ x) (hx1 : x ≤ mx) :
+    detour N (a : K) (b : K) (c : K) (d : K) ((clamp mn mx ((|b| * c + a * |d|) / (|b| + |d|)) : Rat) : K) ≤
+      detour N (a : K) (b : K) (c : K) (d : K) (x : K) := by
+  have key := detour_model_min N hN a |b| c |d| mn mx (Or.inl ⟨abs_nonneg b, abs_nonneg d, hbd⟩) hmm x hx0 hx1
+  have e1 : ((|b| : Rat) : K) = |(b : K)| := by push_cast; rfl
+  have e2 : ((|d| : Rat) : K) = |(d : K)| := by push_cast; rfl
+  rw [e1, e2, detour_abs N hN, detour_abs N hN] at key
+  exact key
 
 /-! ### any path through a point is at least as long as the two straight legs -/
 
